@@ -92,9 +92,15 @@ def reply_bytes(r) -> bytes:
                           pad_length=0, context_id=0, auth_value=bytes(tok))
     al = len(tok) if tok is not None else 0
     if kind in (0, 1):
-        res = [B.ContextResult(result=B.ContextResultCode(x), reason=0, syntax=NDR64, syntax_version=1) for x in results]
+        # result codes the enum does not know (4.., e.g. a newer or broken server) are patched into the packed octets: the result
+        # field of entry i sits at 36 + 24 i (16 header + 8 + secondary address "135\0" with its length and padding + count word)
+        res = [B.ContextResult(result=B.ContextResultCode(x if 0 <= x <= 3 else 2), reason=0, syntax=NDR64, syntax_version=1) for x in results]
         cls, pt = (B.BindAck, P.PacketType.BIND_ACK) if kind == 0 else (B.AlterContextResponse, P.PacketType.ALTER_CONTEXT_RESP)
-        b = cls(header=_hdr(pt, flags, al), sec_trailer=st, max_xmit_frag=5840, max_recv_frag=5840, assoc_group=1, sec_addr="135", results=res).pack()
+        b = bytearray(cls(header=_hdr(pt, flags, al), sec_trailer=st, max_xmit_frag=5840, max_recv_frag=5840, assoc_group=1, sec_addr="135", results=res).pack())
+        for i, x in enumerate(results):
+            if not 0 <= x <= 3:
+                b[36 + 24 * i : 38 + 24 * i] = int(x).to_bytes(2, "little")
+        b = bytes(b)
     elif kind == 2:
         b = B.BindNak(header=_hdr(P.PacketType.BIND_NAK, 3, 0), sec_trailer=None, reject_reason=4, versions=[(5, 0)]).pack()
     elif kind == 3:
@@ -204,6 +210,10 @@ def oracle(arg):
         if not server:
             return Err("EOFError")
         r = server.pop(0)
+        # the reply is DECODED first: a bind_ack / alter_context_resp whose result vector holds a code that is no ContextResultCode
+        # member (0..3) does not decode (ContextResult.unpack), whatever kind was awaited
+        if r[0] in (0, 1) and any(code not in (0, 1, 2, 3) for code in r[1]):
+            return Err("ValueError")
         if r[0] != want_kind:
             return Err("ValueError")
         return r
@@ -290,7 +300,7 @@ def gen_cases(ctx: Ctx):
     toks = [b"T1", b"T22", b"T333", b"T4444"]
     acks = []
     for kind in (0, 1):
-        for results in ([0, 0], [0, 2], [2, 0], [2, 3], [0], []):
+        for results in ([0, 0], [0, 2], [2, 0], [2, 3], [0], [], [7, 0], [0, 4], [65535, 65535], [256, 2]):
             for flags in (3, 7):
                 for tk in (None, b"S1"):
                     acks.append([kind, results, flags, tk])
